@@ -193,7 +193,8 @@ func VH_C16_copy_capability() {
 	ma.CapTable = []*Client{nil, nil}
 	src, err := NewRootStruct(sa, ObjectSize{PointerCount: 1})
 	vAssume(err == nil)
-	ci := CapabilityID(vConc(int(vNondetU8()), 2))
+	// indexes 0, 1 are in the table; 2 (== len) and 3 are not: they copy as a null entry
+	ci := CapabilityID(vConc(int(vNondetU8()), 4))
 	vAssume(src.SetPtr(0, NewInterface(sa, ci).ToPtr()) == nil)
 	mb, _ := vNewMsg()
 	k := vConc(int(vNondetU8()), 3)
@@ -356,4 +357,41 @@ func VH_C16_copy_capability_refs() {
 	vReach("released")
 	vAssert(th.shutdowns == 1, "C16.capref.shut-down-exactly-once-when-both-are-gone")
 	vAssert(vLocksHeld() == 0, "C16.capref.no-lock-held")
+}
+
+// bit lists of every length around the word boundaries copied into another message: exactly the
+// source's bits arrive, and nothing of whatever follows the list in the source segment
+func VH_C16_copy_bit_list() {
+	n := []int32{0, 1, 63, 64, 65, 128}[vConc(int(vNondetU8()), 6)]
+	_, sa := vNewMsg()
+	src, err := NewRootStruct(sa, ObjectSize{PointerCount: 1})
+	vAssume(err == nil)
+	bl, err := NewBitList(sa, n)
+	vAssume(err == nil)
+	i := 0
+	if n > 0 {
+		i = vNondetInt()
+		vAssume(i >= 0 && i < int(n))
+		bl.Set(i, true)
+	}
+	// the object right behind the list in the source
+	marker, err := NewUInt64List(sa, 1)
+	vAssume(err == nil)
+	marker.Set(0, ^uint64(0))
+	vAssume(src.SetPtr(0, bl.ToPtr()) == nil)
+	mb, sb := vNewMsg()
+	vAssume(mb.SetRoot(src.ToPtr()) == nil)
+	vReach("copied")
+	used := segLen(sb)
+	want := int64(8 + 8 + 8*((int64(n)+63)/64)) // root pointer, struct, list words
+	vAssert(used == want, "C16.bitlist.copy-takes-exactly-the-list-words")
+	rp, err := mb.Root()
+	vAssume(err == nil)
+	p, err := rp.Struct().Ptr(0)
+	vAssert(err == nil && p.List().Len() == int(n), "C16.bitlist.length")
+	if err == nil && n > 0 && p.List().Len() == int(n) {
+		j := vNondetInt()
+		vAssume(j >= 0 && j < int(n))
+		vAssert(BitList{p.List()}.At(j) == (j == i), "C16.bitlist.bits")
+	}
 }
